@@ -330,3 +330,55 @@ Fixpoint reconcile_all (st : storages) (h : list step) : list step_trace :=
   | [] => []
   | s :: t => let '(st', tr) := reconcile st s in tr :: reconcile_all st' t
   end.
+
+(* ------------------------------------------------------------------ the acme account
+   signer.AcmeAccount (pkg/acme/signer.go, after the fix of /repo 461dbc0): the signer remembers
+   the account it holds a client for.  `load_ok` says whether acme.NewClient would succeed now
+   (account key readable, ACME directory reachable, account found or created): it is the
+   environment, a parameter. *)
+
+Record account := { ac_endpoint : string; ac_emails : string; ac_terms : bool }.
+Definition empty_account : account := {| ac_endpoint := ""; ac_emails := ""; ac_terms := false |}.
+
+Definition account_eqb (a b : account) : bool :=
+  String.eqb (ac_endpoint a) (ac_endpoint b) && String.eqb (ac_emails a) (ac_emails b)
+  && Bool.eqb (ac_terms a) (ac_terms b).
+
+(* the short names of the Let's Encrypt endpoints *)
+Definition normal_endpoint (e : string) : string :=
+  if String.eqb e "v2" || String.eqb e "v02" then "https://acme-v02.api.letsencrypt.org"
+  else if String.eqb e "v2-staging" || String.eqb e "v02-staging" then "https://acme-staging-v02.api.letsencrypt.org"
+  else e.
+
+(* acme is configured: not all three keys empty *)
+Definition configured (a : account) : bool :=
+  negb (String.eqb (normal_endpoint (ac_endpoint a)) "" && String.eqb (ac_emails a) "" && negb (ac_terms a)).
+
+(* sg_client: s.client != nil, what HasAccount() answers *)
+Record signer_state := { sg_account : account; sg_client : bool }.
+Definition new_signer : signer_state := {| sg_account := empty_account; sg_client := false |}.
+
+Definition acme_account (load_ok : bool) (cfg : account) (s : signer_state) : signer_state :=
+  let a := {| ac_endpoint := normal_endpoint (ac_endpoint cfg); ac_emails := ac_emails cfg; ac_terms := ac_terms cfg |} in
+  if account_eqb (sg_account s) a then s
+  else if negb (configured cfg) then new_signer              (* account dropped, nothing to load *)
+  else if load_ok then {| sg_account := a; sg_client := true |}
+  else new_signer.                                          (* load failed: nothing is remembered *)
+
+(* one reconciliation with the real signer: Instance.AcmeUpdate asks the signer for the account
+   (acmeEnsureConfig) only when leading *)
+Record astep := { as_sync : sync; as_leader : bool; as_config : account; as_load_ok : bool }.
+
+Definition areconcile (ss : storages * signer_state) (s : astep)
+    : (storages * signer_state) * (step_trace * bool) :=
+  let '(st, sg) := ss in
+  let sg' := if as_leader s then acme_account (as_load_ok s) (as_config s) sg else sg in
+  let '(st', tr) := reconcile st {| s_sync := as_sync s; s_called := true; s_leader := as_leader s;
+                                    s_account := sg_client sg' |} in
+  ((st', sg'), (tr, sg_client sg')).
+
+Fixpoint areconcile_all (ss : storages * signer_state) (h : list astep) : list (astep * step_trace * bool) :=
+  match h with
+  | [] => []
+  | s :: t => let '(ss', (tr, has)) := areconcile ss s in (s, tr, has) :: areconcile_all ss' t
+  end.
